@@ -5,7 +5,7 @@
    Go functions (named g_...) compute exactly what the model functions of CsmModel.v compute, which are
    the functions the theorems of Props/C01 C02 C06 C14 are about.  cn_emb / dn_emb (SrcEquiv.v)
    build the Go struct from a model node and its current value. *)
-From Coq Require Import ZArith List Bool.
+From Coq Require Import ZArith List Bool Lia.
 Require Import QzBase.Calendar QzBase.GoTime QzBase.Fields.
 Require Import QzCron.Gen.Params QzCron.Gen.CsmSrc QzCron.CsmModel QzCron.SrcEquiv QzCron.NftProofs QzCron.SrcMachine.
 Require Import QzCron.NextFire QzCron.GoTimeLoc QzCron.CronExt QzCron.Gen.CronSrc QzCron.CronSrcEquiv QzCron.NftSrcEquiv QzCron.CsmSpec.
@@ -155,3 +155,42 @@ Example SrcTie_next_fire_time_example :
                     CronTrigger_location := fixed_zone 0 |} 1717200000000000000
   = Some (1719569700000000000, 0).
 Proof. vm_compute. reflexivity. Qed.
+
+(* C02 read off the translated source (fixed-offset locations, UTC included): when the Go function returns ns with
+   a nil error no whole-second instant strictly between prev and ns satisfies the expression, and it returns
+   ErrTriggerExpired exactly when no satisfying instant is left up to the int64 limit *)
+Theorem SrcTie_C02_on_the_source : forall f off prev,
+  wf_fields f = true -> -93600 <= off <= 93600 -> min_nanos <= prev <= max_nanos ->
+  (forall ns, g_NextFireTime {| CronTrigger_fields := f; CronTrigger_location := fixed_zone off |} prev = Some (ns, 0) ->
+     forall t', prev < t' < ns -> t' mod nanos = 0 -> ~ matches_at f (fixed_zone off) t') /\
+  (g_NextFireTime {| CronTrigger_fields := f; CronTrigger_location := fixed_zone off |} prev = Some (0, c_ErrTriggerExpired) <->
+     forall t', prev < t' <= max_nanos -> t' mod nanos = 0 -> ~ matches_at f (fixed_zone off) t').
+Proof.
+  intros f off prev Hwf Hoff Hp.
+  rewrite (src_next_fire_time f Hwf (fixed_zone off) (fixed_zone_off_ok off Hoff) prev Hp).
+  change (next_fire_time_zone f (fixed_zone off) prev) with (next_fire_time f off prev).
+  split.
+  - intros ns H. destruct (next_fire_time f off prev) as [ns'| |] eqn:E; cbn [encode] in H; try discriminate.
+    injection H as ->. exact (nft_fixed_least f Hwf off Hoff prev ns Hp E).
+  - rewrite <- (nft_fixed_expired_iff f Hwf off Hoff prev Hp).
+    destruct (next_fire_time f off prev) as [ns'| |] eqn:E; cbn [encode]; split; intros H; try discriminate; try reflexivity.
+Qed.
+Print Assumptions SrcTie_C02_on_the_source.
+
+(* C06 read off the translated source: for every location with bounded offsets and every int64 prev the Go function
+   comes back (never the out-of-budget value None), with a fire time strictly after prev and a nil error, or with
+   ErrTriggerExpired *)
+Theorem SrcTie_C06_on_the_source : forall f z prev,
+  wf_fields f = true -> wf_zone z = true -> min_nanos <= prev <= max_nanos ->
+  exists v code, g_NextFireTime {| CronTrigger_fields := f; CronTrigger_location := z |} prev = Some (v, code) /\
+    ((code = 0 /\ prev < v) \/ (code = c_ErrTriggerExpired /\ v = 0)).
+Proof.
+  intros f z prev Hwf Hz Hp.
+  rewrite (src_next_fire_time f Hwf z (wf_zone_off_ok z Hz) prev Hp).
+  pose proof (nft_zone_total f Hwf z (wf_zone_off_ok z Hz) prev Hp) as Ht.
+  destruct (next_fire_time_zone f z prev) as [ns| |] eqn:E; [| |contradiction]; cbn [encode].
+  - exists ns, 0. split; [reflexivity|]. left. split; [reflexivity|].
+    destruct (nft_zone_sound_wf f z prev ns Hwf Hz Hp E) as (_ & Hlt & _). lia.
+  - exists 0, c_ErrTriggerExpired. split; [reflexivity|]. right. split; reflexivity.
+Qed.
+Print Assumptions SrcTie_C06_on_the_source.
